@@ -152,7 +152,7 @@ def run(ck):
         single = rv[0] == 'enum' and len(rv[1]) == 1 and rv[1][0][0] == reuse
         arg_single = arg[0] == 'enum' and len(arg[1]) == 1 and arg[1][0][0] == reuse
         w.mem[('G', 'subst')] = ('enum', ((1 if (single and not arg_single) else 0, ()),))
-    extra = {'ret_hooks': {clru_key(f): clru_ret}, 'kslots': 24}
+    extra = {'ret_hooks': {clru_key(f): clru_ret}, 'kslots': 64}
     i_label = field_index(f, 'gse_encap::EncapMetadata', 'label')
     n1 = 0
     pa_all = []
